@@ -490,71 +490,90 @@ structure MolSt where
   elems : List PElem := []
   rid : Nat := 0
 
-/-- the `while stochastic_text.find("{") >= 0` loop of `Molecule.__init__` -/
-def molLoop (valid : Str → Bool) (resPrefix : Nat) : Nat → MolSt → PR MolSt
+inductive StepRes (σ α : Type)
+  | done (a : α)
+  | next (s : σ)
+  | fail (e : PErr)
+
+/-- a `while` loop with fuel: running out of fuel is the distinct outcome `diverge` -/
+def iter {σ α : Type} (step : σ → StepRes σ α) : Nat → σ → PR α
   | 0, _ => .error .diverge
   | f + 1, s =>
-    let iBrace := find s.text ['{']
-    if iBrace < 0 then .ok s else
-    let preTok0 := strip (slice s.text none (some iBrace))
-    -- prefix / connector token
-    let preR : PR (Option (PToken × Str) × Nat) :=
-      if preTok0.isEmpty then .ok (none, s.rid) else
-      match parseToken valid preTok0 0 (resPrefix + s.rid) with
-      | .error e => .error e
-      | .ok t0 =>
-        let rid1 := s.rid + 1
-        match s.elems.getLast? with
-        | none => .ok (some (t0, preTok0), rid1)
-        | some lastEl =>
-          if t0.descs.length > 0 then
-            -- a written descriptor has to print like the one the automatic insertion would write
-            match lastDescOf lastEl with
-            | none => .error .pyIndex
-            | some other =>
-              match parseDesc (compatText other) 0 [] none with
-              | .error e => .error e
-              | .ok expected =>
-                if t0.descs.any (fun bd => printDesc bd false == printDesc expected false) then .ok (some (t0, preTok0), rid1)
-                else .error .molIncompatible
-          else
-            match lastDescOf lastEl with
-            | none => .error .pyIndex
-            | some other =>
-              let txt := compatText other ++ preTok0
-              match parseToken valid txt 0 (resPrefix + rid1) with
-              | .error e => .error e
-              | .ok t1 => .ok (some (t1, txt), rid1 + 1)
-    match preR with
-    | .error e => .error e
-    | .ok (pre, rid1) =>
-      let text1 := strip (slice s.text (some iBrace) none)
-      let endPos0 : Int := find text1 ['}'] + 1
-      let chO := index text1 endPos0
-      match (some chO : Option (Option Char)) with
-      | none => .error .pyIndex
-      | some ch =>
-        let endPos : Int := if endPos0 < text1.length && ch == some '|' then find text1 ['|'] ((endPos0 + 2).toNat) + 1 else endPos0
-        match parseStoch valid (slice text1 none (some endPos)) (resPrefix + rid1) with
-        | .error e => .error e
-        | .ok o =>
-          let rid2 := rid1 + o.repeats.length + o.ends.length
-          let addPre : PR (List PElem × Nat) :=
-            match pre with
-            | none => .ok ([], rid2)
-            | some (t, txt) =>
-              let minExpected := if s.elems.isEmpty then 1 else 2
-              if t.descs.length < minExpected then
-                let bt := compatText o.left
-                let txt2 := txt ++ (bt.take (bt.length - 1)) ++ "|0|]".toList
-                match parseToken valid txt2 0 (resPrefix + rid2) with
-                | .error e => .error e
-                | .ok t2 => .ok ([PElem.tok t2], rid2 + 1)
-              else .ok ([PElem.tok t], rid2)
-          match addPre with
+    match step s with
+    | .done a => .ok a
+    | .fail e => .error e
+    | .next s' => iter step f s'
+
+/-- end of the stochastic object that starts `text1`: after the `}` and, when a distribution follows, after its closing `|` -/
+def molEndPos (text1 : Str) : Int :=
+  let endPos0 : Int := find text1 ['}'] + 1
+  if endPos0 < text1.length && index text1 endPos0 == some '|' then find text1 ['|'] ((endPos0 + 2).toNat) + 1 else endPos0
+
+/-- second half of one iteration: the stochastic object at the start of `text1`, the (possibly completed) prefix token, the rest -/
+def molStepTail (valid : Str → Bool) (resPrefix : Nat) (s : MolSt) (text1 : Str) (pre : Option (PToken × Str)) (rid1 : Nat) :
+    StepRes MolSt MolSt :=
+  let endPos := molEndPos text1
+  match parseStoch valid (slice text1 none (some endPos)) (resPrefix + rid1) with
+  | .error e => .fail e
+  | .ok o =>
+    let rid2 := rid1 + o.repeats.length + o.ends.length
+    let addPre : PR (List PElem × Nat) :=
+      match pre with
+      | none => .ok ([], rid2)
+      | some (t, txt) =>
+        let minExpected := if s.elems.isEmpty then 1 else 2
+        if t.descs.length < minExpected then
+          let bt := compatText o.left
+          let txt2 := txt ++ (bt.take (bt.length - 1)) ++ "|0|]".toList
+          match parseToken valid txt2 0 (resPrefix + rid2) with
           | .error e => .error e
-          | .ok (preEls, rid3) =>
-            molLoop valid resPrefix f { text := strip (slice text1 (some endPos) none), elems := s.elems ++ preEls ++ [PElem.stoch o], rid := rid3 }
+          | .ok t2 => .ok ([PElem.tok t2], rid2 + 1)
+        else .ok ([PElem.tok t], rid2)
+    match addPre with
+    | .error e => .fail e
+    | .ok (preEls, rid3) =>
+      .next { text := strip (slice text1 (some endPos) none), elems := s.elems ++ preEls ++ [PElem.stoch o], rid := rid3 }
+
+/-- the prefix / connector token in front of the next stochastic object (`preTok0`, stripped), with the automatic insertion of the
+descriptor that connects it to the previous element -/
+def molPrefix (valid : Str → Bool) (resPrefix : Nat) (s : MolSt) (preTok0 : Str) : PR (Option (PToken × Str) × Nat) :=
+  if preTok0.isEmpty then .ok (none, s.rid) else
+  match parseToken valid preTok0 0 (resPrefix + s.rid) with
+  | .error e => .error e
+  | .ok t0 =>
+    let rid1 := s.rid + 1
+    match s.elems.getLast? with
+    | none => .ok (some (t0, preTok0), rid1)
+    | some lastEl =>
+      if t0.descs.length > 0 then
+        -- a written descriptor has to print like the one the automatic insertion would write
+        match lastDescOf lastEl with
+        | none => .error .pyIndex
+        | some other =>
+          match parseDesc (compatText other) 0 [] none with
+          | .error e => .error e
+          | .ok expected =>
+            if t0.descs.any (fun bd => printDesc bd false == printDesc expected false) then .ok (some (t0, preTok0), rid1)
+            else .error .molIncompatible
+      else
+        match lastDescOf lastEl with
+        | none => .error .pyIndex
+        | some other =>
+          let txt := compatText other ++ preTok0
+          match parseToken valid txt 0 (resPrefix + rid1) with
+          | .error e => .error e
+          | .ok t1 => .ok (some (t1, txt), rid1 + 1)
+
+/-- one iteration of the `while stochastic_text.find("{") >= 0` loop of `Molecule.__init__` -/
+def molStep (valid : Str → Bool) (resPrefix : Nat) (s : MolSt) : StepRes MolSt MolSt :=
+  let iBrace := find s.text ['{']
+  if iBrace < 0 then .done s else
+  match molPrefix valid resPrefix s (strip (slice s.text none (some iBrace))) with
+  | .error e => .fail e
+  | .ok (pre, rid1) => molStepTail valid resPrefix s (strip (slice s.text (some iBrace) none)) pre rid1
+
+/-- the `while stochastic_text.find("{") >= 0` loop of `Molecule.__init__`; running out of fuel is the distinct outcome `diverge` -/
+def molLoop (valid : Str → Bool) (resPrefix : Nat) (fuel : Nat) (s : MolSt) : PR MolSt := iter (molStep valid resPrefix) fuel s
 
 /-- `Molecule(big_smiles_ext, res_id_prefix)` -/
 def parseMol (valid : Str → Bool) (text : Str) (resPrefix : Nat) : PR PMol :=
@@ -610,20 +629,6 @@ def printMol (m : PMol) (ext : Bool) : Str :=
   (m.elems.map (printElem ext)).flatten ++ (match m.mix with | some x => printMix x ext | none => [])
 
 def PMol.nres (m : PMol) : Nat := (m.elems.map PElem.nres).sum
-
-inductive StepRes (σ α : Type)
-  | done (a : α)
-  | next (s : σ)
-  | fail (e : PErr)
-
-/-- a `while` loop with fuel: running out of fuel is the distinct outcome `diverge` -/
-def iter {σ α : Type} (step : σ → StepRes σ α) : Nat → σ → PR α
-  | 0, _ => .error .diverge
-  | f + 1, s =>
-    match step s with
-    | .done a => .ok a
-    | .fail e => .error e
-    | .next s' => iter step f s'
 
 /-- one iteration of the `while text.find(".|") >= 0` loop of `System.__init__` -/
 def sysStep (valid : Str → Bool) (st : Str × Nat × List PMol) : StepRes (Str × Nat × List PMol) (Str × List PMol) :=
